@@ -59,6 +59,7 @@ var c16bVariants = []c16bVariant{
 	{"insert into t2 (id, g, seq, txt) values", ""},
 	{"insert into t3 (id, g, seq, txt) values", "on duplicate key update seq = seq"},
 	{"insert into t (id, g, seq, txt) values", "on duplicate key update seq = seq"},
+	{"insert into t5 (id, g, seq, txt) values", ";"}, // the shortest suffix a caller can write
 }
 
 func (v c16bVariant) text() string {
